@@ -252,6 +252,24 @@ def handle (line : String) : String :=
     match floatList hd, floatList ls with
     | some [m], some lims => "ok " ++ showFloats [Orifice.clampGroup m lims]
     | _, _ => "bad-op"
+  | "orif" :: rest =>
+    -- orif present(0/1)... | id flow id flow ...   (Orifice.writeFlows on positions holding 0.0 when present; prints per
+    -- position "n" for empty or the bits of the flow)
+    let (ps, ws) := splitBar rest
+    let rec pairsOf : List String → Option (List (Nat × Float))
+      | [] => some []
+      | a :: b :: t => do
+        let i ← a.toNat?
+        let n ← b.toNat?
+        let r ← pairsOf t
+        pure ((i, Float.ofBits n.toUInt64) :: r)
+      | _ => none
+    match natList ps, pairsOf ws with
+    | some present, some prs =>
+      let pos : List (Option Float) := present.map fun b => if b = 0 then none else some 0.0
+      let out := Orifice.writeFlows pos prs
+      "ok " ++ " ".intercalate (out.map fun o => match o with | none => "n" | some x => toString x.toBits.toNat)
+    | _, _ => "bad-op"
   | "accept" :: rest =>
     -- accept length asmPitch flowGap(0/1) bypass | nRing pitch diam clad wire lowFid(0/1) ducts... | ... || bc bc ...
     -- (assemblies separated by "|", boundary conditions after "||"; a missing bc is the token "none")
